@@ -908,6 +908,29 @@ class Summaries:
                 return [(s2, some(rty, r)) for (s2, r) in call_closure(ctx, s, f, [p])]
             return fork_opt(ctx, ctx.args[0], lambda s, p: none(rty), on_some)
 
+        @regx(r'^std::option::Option::<&(mut )?T>::(cloned|copied)$')
+        def _(ctx):
+            rty = ctx.ret_ty
+            return fork_opt(ctx, ctx.args[0], lambda s, p: none(rty), lambda s, p: some(rty, eng.read(s, p.path) if isinstance(p, RefV) else p))
+
+        @regx(r'^std::option::Option::<T>::(as_ref|as_mut|as_deref|as_deref_mut|take)$')
+        def _(ctx):
+            a = ctx.args[0]
+            rty = ctx.ret_ty
+            what = ctx.callee.split('::')[-1]
+            o = deref1(ctx, a)
+            if isinstance(o, EnumV) and isinstance(a, RefV):
+                if what == 'take':
+                    eng.write(ctx.st, a.path, none(o.ty), log=(a.path[0] == ('H', 'S')))
+                    return o
+                if o.tags == {0}:
+                    return none(rty)
+                pay = RefV((a.path[0], a.path[1] + (('v', 1), ('f', '0', '?'))), what.endswith('mut'))
+                if o.tags == {1}:
+                    return some(rty, pay)
+                return EnumV(rty, {0, 1}, {1: StructV('Some', {'0': pay})}, eid=o.eid)
+            return eng.mk_default(ctx.st, rty)
+
         @reg('std::option::Option::<T>::map_or_else')
         def _(ctx):
             fd, f = ctx.args[1], ctx.args[2]
